@@ -38,6 +38,7 @@ import (
 
 type resJ struct {
 	S      []string `json:"s"`
+	Cls    []int    `json:"cls"` // ordered partition: admissible orders permute only inside a class
 	Ord    bool     `json:"ord"`
 	By     string   `json:"by"`
 	Det    bool     `json:"det"`
@@ -90,7 +91,8 @@ type witness struct {
 	Input   string   `json:"input"`
 	Sk      string   `json:"sk"`
 	Batch   int      `json:"batch"`
-	Mode    string   `json:"mode"` // "seq" | "bag" | "sorted:<by>"
+	Mode    string   `json:"mode"` // "seq" | "bag" | "sorted:<by>" | "classes"
+	Cls     []int    `json:"cls,omitempty"`
 	U       []string `json:"as_analyzed"`
 	O       []string `json:"optimized"`
 	UErr    string   `json:"as_analyzed_err,omitempty"`
@@ -160,8 +162,45 @@ func errStr(err error) string {
 // compare is the property's oracle on two real results.  mode: "seq" (same
 // sequence), "bag" (same multiset), "sorted:<by>" (same multiset, and O sorted
 // by the comparator whenever U is).
-func compare(mode string, U, O []string) (bool, string) {
+func compare(mode string, U, O []string) (bool, string) { return compareCls(mode, nil, U, O) }
+
+// blocks returns the maximal runs of equal class ids.
+func blocks(cls []int) [][2]int {
+	var out [][2]int
+	for i := 0; i < len(cls); {
+		j := i
+		for j < len(cls) && cls[j] == cls[i] {
+			j++
+		}
+		out = append(out, [2]int{i, j})
+		i = j
+	}
+	return out
+}
+
+// sameUpToClasses: b is a permutation of a that only moves values inside a class.
+func sameUpToClasses(cls []int, a, b []string) bool {
+	if len(a) != len(b) || len(cls) != len(a) {
+		return false
+	}
+	for _, r := range blocks(cls) {
+		if !sameBag(a[r[0]:r[1]], b[r[0]:r[1]]) {
+			return false
+		}
+	}
+	return true
+}
+
+func compareCls(mode string, cls []int, U, O []string) (bool, string) {
 	switch {
+	case mode == "classes":
+		if !sameBag(U, O) {
+			return false, "different values"
+		}
+		if !sameUpToClasses(cls, U, O) {
+			return false, "same values, but in an order the program does not allow (values moved across the groups whose relative order the program defines)"
+		}
+		return true, ""
 	case mode == "seq":
 		if !sameSeq(U, O) {
 			if sameBag(U, O) {
@@ -314,7 +353,7 @@ func (h *harness) evalCase(r *runner, cs *caseJ, batch int) {
 	case cs.Ref.Ord:
 		semOK = sameSeq(eU, cs.Ref.S)
 	default:
-		semOK = sameBag(eU, cs.Ref.S) && (cs.Ref.By == "" || sortedBy(cs.Ref.By, eU))
+		semOK = sameUpToClasses(cs.Ref.Cls, cs.Ref.S, eU) && (cs.Ref.By == "" || sortedBy(cs.Ref.By, eU))
 	}
 	if !semOK {
 		h.drift("semantics: `%s` on %v sk=%q batch=%d: as analyzed %v, Sem %v (ord=%v by=%q)", prog, cs.Input, cs.Sk, batch, short(eU), short(cs.Ref.S), cs.Ref.Ord, cs.Ref.By)
@@ -326,12 +365,15 @@ func (h *harness) evalCase(r *runner, cs *caseJ, batch int) {
 		mode = "seq"
 	} else if cs.Ref.By != "" {
 		mode = "sorted:" + cs.Ref.By
+	} else if len(blocks(cs.Ref.Cls)) > 1 {
+		mode = "classes" // neither a sequence nor a bag: the order is defined between classes
+		w.Cls = cs.Ref.Cls
 	}
 	w.Mode = mode
 	h.mu.Lock()
 	h.checked++
 	h.mu.Unlock()
-	ok, why := compare(mode, U.Rows, O.Rows)
+	ok, why := compareCls(mode, cs.Ref.Cls, U.Rows, O.Rows)
 	if ok {
 		// (4) bind Sem(Optimize(p)): only informative when the spec expects equivalence
 		if !cs.Opt.Poison && len(cs.Taint) == 0 {
@@ -562,6 +604,11 @@ func run(c *core.Ctx) error {
 	for _, t := range taintTags {
 		if t == "join-lockstep" {
 			continue // a hang is not expressible in Sem; witnessed on the real code instead
+		}
+		if t == "stale-sortkey" {
+			// the cut/rename chain that witnessed it was repaired (3427a6655); what is left of the
+			// ghost (a rename onto the key field) has no witness within the bounded inputs
+			continue
 		}
 		if h.taintPredicted[t] == 0 {
 			c.Inconclusive("vacuous: taint %q is never needed (no exported case where the spec predicts non-equivalence under it)", t)
